@@ -62,3 +62,80 @@ PROPS["C13"] = dict(
     assumptions=_TX_ASSUME,
     units=[dict(name="history", run="^TestC13History$", quick=2000, thorough=10000, shards_quick=2, shards_thorough=16)],
 )
+
+_MGR_ASSUME = [
+    "scrypt work factor replaced by N=16 through waddrmgr.SetSecretKeyGen (public API); the properties do not depend on the work factor",
+    "the oracle (internal/bip32ref) follows btcsuite's legacy hardened-derivation rule step by step and is cross-checked against hdkeychain on 3000 seeds; "
+    "invalid BIP32 children (probability 2^-127) cannot be generated",
+    "imports pass a non-nil BlockStamp as every caller does; near-miss passphrases that are HMAC-key-equivalent (finding F8, owned by C17) are not generated here",
+]
+
+PROPS["C03"] = dict(
+    pkg="c03", level="exploration",
+    rule=("rapid stateful machine over a real waddrmgr.Manager on bbolt (4-25 steps quick, up to 50 thorough): next/extend/lookup/derive-by-path (with and without key cache)/"
+          "mark-used/lock/unlock (right, wrong)/passphrase change/new account/imported xpub account (second seed, optional schema override)/rename/import key/import script/"
+          "custom scope/restart, over regtest/testnet/mainnet and seeds of 16-64 bytes incl. seeds where the legacy hardened rule differs from BIP32. Every returned address is "
+          "compared with an independent BIP32 derivation; after EVERY step EVERY issued address is looked up again and its private-key accessor must agree with the oracle key "
+          "and the lock state. Non-trivial = >= 3 addresses on >= 2 branches/scopes and one of restart, lock-issue-unlock, extend, imported account."),
+    assumptions=_MGR_ASSUME,
+    units=[dict(name="addresses", run="^TestC03Addresses$", quick=1500, thorough=3000, shards_quick=2, shards_thorough=16, timeout=1500)],
+)
+PROPS["C05"] = dict(
+    pkg="c05", level="exploration",
+    rule=("same machine weighted to lock/unlock (right passphrase, one-bit/truncated/extended/empty/case/other near misses)/passphrase change/restart with address, account and "
+          "import operations in between; after every step every managed address' PrivKey/ExportPrivKey/Script and Manager.Encrypt/Decrypt(CKTPrivate|CKTScript) are checked against "
+          "the model's lock state, NewAccount/ImportPrivateKey/secret ImportScript/NewScopedKeyManager/DeriveFromKeyPath(Cache) must fail with a locked or watching-only error while "
+          "locked, and right after every transition into the locked state the build-tagged report must show every clear-text key buffer (master, crypto, account, address keys, "
+          "P2SH scripts, hashed passphrase, derived-key cache) nil or zero. Non-trivial = lock after a private-key access, a wrong-passphrase unlock, and a passphrase change or restart."),
+    assumptions=_MGR_ASSUME + ["clear text of witness/taproot script addresses is reported as an observation only (the statement speaks of private keys)",
+                               "DeriveFromKeyPathCache while locked must fail and return no key; the error class is not asserted"],
+    units=[dict(name="lockstate", run="^TestC05LockState$", quick=2500, thorough=3000, shards_quick=2, shards_thorough=16, timeout=1500)],
+)
+PROPS["C08"] = dict(
+    pkg="c08", level="exploration",
+    rule=("same machine over a database proxy; 30% of the address-issuing / account-creating transactions are rolled back (error after success = dry run, or failed commit); after "
+          "EVERY step a second manager is opened on the same database, brought to the same lock state, and both answer the same query set (every issued/imported address with "
+          "metadata and used flag, never-issued next addresses, AccountProperties, last addresses, names, ForEachAccount, SyncedTo, BlockHash, Birthday, watch-only) - answers must be "
+          "equal and persisted key counts must equal what committed operations issued; the next committed request must return the oracle's next address. Non-trivial = a rolled-back "
+          "issuing transaction followed by a committed issue, or rename/mark-used between lookups."),
+    assumptions=_MGR_ASSUME + ["rolled-back transactions contain address-issuing operations and account creations (what dry runs and failed commits of real callers contain); "
+                               "addresses produced only inside rolled-back transactions are excluded from lookups (cache residue of never-issued addresses is outside the statement)"],
+    units=[dict(name="restart", run="^TestC08MemoryEqualsRestart$", quick=400, thorough=1500, shards_quick=2, shards_thorough=16, timeout=1500)],
+)
+PROPS["C07"] = dict(
+    pkg="c07", level="exploration",
+    rule=("rapid draws direct calls of txauthor.NewUnsignedTransaction + AddAllInputScripts: 0-400 requested outputs (P2PKH/P2SH/P2WPKH/P2WSH/P2TR/OP_RETURN, "
+          "counts biased to 0,1,2,251..254), rate 1000..1e6 sat/kvB (about half not multiples of 1000, tuned so rate x estimate sits on/next to a truncation boundary), "
+          "0-40 coins (thorough: sometimes 250-256) of mixed P2PKH/P2WPKH/nested-P2WPKH/P2TR locked to real compressed keys, amounts aimed at outputs + {required fee, "
+          "fee without change, first guess, fee+dust} +- {0,1,dust,...}, delivered by copies of wallet.makeInputSource (generated order) or constantInputSource, four change "
+          "script types. Every success is signed, measured with mempool.GetTxVirtualSize and verified with StandardVerifyFlags. Non-trivial = success with >=2 input types or "
+          ">=252 outputs or leftover within 2 dust thresholds of the zero-change boundary; or an insufficiency (justified or not) within 2x required fee of the boundary. "
+          "Distinct = fingerprint of the rendered case."),
+    assumptions=["requested outputs pass txrules.CheckOutput at DefaultRelayFeePerKb as wallet.sendOutputs / FundPsbt enforce (non-dust, OP_RETURN any value >= 0)",
+                 "compressed keys only (author.go BUGS: uncompressed P2PKH out of scope); P2SH coins are P2SH-P2WPKH, P2TR coins are BIP86 key-spend",
+                 "input sources behave like wallet.makeInputSource / constantInputSource (re-implemented in the harness because they are unexported); coin values >= 1",
+                 "'required fee' of the insufficient-funds clause = rate x code base's worst-case estimate for the delivered input mix INCLUDING a change output (weakest reading); "
+                 "coins covering only the fee of the change-less transaction are counted as an observation class, not asserted",
+                 "upper bound uses the code base's own txsizes.EstimateVirtualSize as 'the worst-case size estimate'"],
+    units=[dict(name="author", run="^TestC07Author$", quick=10000, thorough=30000, shards_quick=1, shards_thorough=16),
+           dict(name="regress", kind="plain", run="^TestC07Regress", quick=None, thorough=None),
+           dict(name="fuzz", kind="fuzz", run="^FuzzC07$", tiers=["thorough"], thorough="120s", timeout=600)],
+)
+PROPS["C17"] = dict(pkg="c17", level="exploration",
+  rule=("rapid: (a) plaintext 0-300 bytes (empty/1/short/block-edge/long; random, zero, 0xff) x key (GenerateCryptoKey, drawn bytes, zero, ff, one-bit) x second key (independent or one bit off): EVERY bit flip, EVERY truncation from end and front, 4-12 drawn overwrite/delete/insert/append/prepend/swap/splice edits must be refused with error and no data; round trip; 4 encryptions pairwise different; other key fails both ways. (b) passphrase 0-64 bytes (empty/1/ascii/binary/64/utf8), scrypt N=2..1024 r=1..8 p=1..2: NewSecretKey->Marshal->Unmarshal->DeriveKey re-derives the same key and opens the original's ciphertext; 8-15 near misses (bit flip, drop first/last/mid, add byte/NUL/space/newline, case, transpose, doubled, empty) => ErrInvalidPassword; salt+digest bit flips (all 512 in ~1/10 of cases, else 8+8 drawn + digest edge bits) and swapped N/r/p => ErrInvalidPassword; every wrong encoding length => ErrMalformed. (c) one waddrmgr.Manager: sequences of encrypt/decrypt/tamper over CKTPublic/Private/Script with lock, unlock, near-miss unlock, reopen. Non-trivial: (a) plaintext non-empty so nonce, tag and body each had tamper positions; (b) >= 1 near miss; (c) case had a public/private cross decrypt and a locked refusal. Distinct = fingerprint of the rendered case."),
+  assumptions=["scrypt parameters kept small (N<=1024); N/r/p encodings are only exchanged for other small valid values",
+               "F8 (open): passphrases equal after HMAC key padding (trailing 0x00 / SHA-256 for >64 bytes) are excluded and counted",
+               "CKTScript: only same-type round trip, tamper failure and locked refusal are asserted; its key is all-zero on this tree (recorded as note)",
+               "nonce/salt/GenerateCryptoKey randomness comes from crypto/rand inside snacl; failure messages carry key, plaintext and ciphertext in hex"],
+  units=[dict(name="cryptokey", run="^TestC17CryptoKey$", quick=15000, thorough=300000, shards_quick=1, shards_thorough=16),
+         dict(name="secretkey", run="^TestC17SecretKey$", quick=1000, thorough=8000, shards_quick=1, shards_thorough=16, gomaxprocs=1),
+         dict(name="manager", run="^TestC17Manager$", quick=4000, thorough=60000, shards_quick=1, shards_thorough=16),
+         dict(name="regress", kind="plain", run="^TestC17Regress", quick=None, thorough=None),
+         dict(name="fuzz-decrypt", kind="fuzz", run="^FuzzC17Decrypt$", tiers=["thorough"], thorough="120s", timeout=600),
+         dict(name="fuzz-unmarshal", kind="fuzz", run="^FuzzC17Unmarshal$", tiers=["thorough"], thorough="60s", timeout=600)])
+PROPS["C18"] = dict(module="harness26", go="go1.26.8", pkg="c18", level="exploration",
+  rule=("rapid draws a script (buffer 0-8; 0-6 steps [10 thorough] of producer burst 1-40 / consumer receive / both at once with fake-clock pauses on both sides; end = drain+Stop, Stop with backlog, or Stop after J sends of a running burst with optional concurrent consumer); each script is executed 4 times (8 thorough), each in a fresh testing/synctest bubble; synctest.Wait decides 'durably blocked', only the bubble's fake clock is used. Non-trivial = in one execution a burst pushed the backlog beyond buffer+2 (overflow list in use) and the consumer received across it while the producer was still sending. Distinct = fingerprint of script + executed interleavings."),
+  assumptions=["one producer goroutine at a time (the statement speaks of a producer); items are consecutive integers",
+               "items in flight at Stop may be dropped: after Stop only order/no-duplication of what is still delivered and termination of the worker are asserted",
+               "interleavings are sampled (runtime select choice, 4-8 repeats), not enumerated; the logged trace is the reproduction"],
+  units=[dict(name="queue", run="^TestC18Queue$", quick=30000, thorough=300000, shards_quick=1, shards_thorough=16)])
